@@ -886,13 +886,13 @@ class UTMITranslator(Elaboratable):
             # Connect our inputs to our transmit translator.
             transmit_translator.ulpi_nxt  .eq(self.ulpi.nxt.i),
             transmit_translator.op_mode   .eq(self.op_mode),
-            transmit_translator.bus_idle  .eq(~control_translator.busy & ~self.ulpi.dir.i & phy_ready),
+            transmit_translator.bus_idle  .eq(~control_translator.busy & ~register_window.write_request & ~self.ulpi.dir.i & phy_ready),
             transmit_translator.tx_data   .eq(self.tx_data),
             transmit_translator.tx_valid  .eq(self.tx_valid),
             self.tx_ready                 .eq(transmit_translator.tx_ready),
 
             # Connect our inputs to our control translator / register window.
-            control_translator.bus_idle   .eq(~transmit_translator.busy & phy_ready),
+            control_translator.bus_idle   .eq(~transmit_translator.busy & ~transmit_translator.ulpi_out_req & phy_ready),
             register_window.ulpi_data_in  .eq(self.ulpi.data.i),
             register_window.ulpi_dir      .eq(self.ulpi.dir.i),
             register_window.ulpi_next     .eq(self.ulpi.nxt.i),
